@@ -265,7 +265,7 @@ fn main() {
     "within one commit every id is touched at most once (ordering inside a batch is C04's subject)".into(),
   ];
   let quick = ctx.quick();
-  let n = ctx.n(500, 15000);
+  let n = ctx.n(1200, 15000);
   ctx.run_cases("idx", n, |rng: &mut Rng, l: &mut Local, scratch| {
     let sch = gen_schema(rng);
     let schema = match idx::schema(&sch.json) {
@@ -358,6 +358,9 @@ fn main() {
       rq.q.visit(&mut |n| l.count(&format!("node[{}]", n.kind()), 1));
       if rq.fuzzy.is_some() {
         l.count("requests_fuzzy", 1);
+      }
+      if rq.legacy_string && matches!(rq.q, Q::Qs { fields: None, .. }) {
+        l.count("requests_legacy_string_query", 1);
       }
       l.count("undecided_doc_verdicts", (o.hi.len() - o.lo.len()) as u64);
       l.count("definite_matches", o.lo.len() as u64);
